@@ -9,7 +9,11 @@ SPEC = {
             "stable-privacy, EUI-64 pattern, none) x exclusion (deprecated, temporary, tentative, IPv4), one address with two flag sets; "
             "random lists up to length 40 (class boundaries fbff/fc00/fdff/fe00/fe7f/fe80/febf/fec0/feff/ff00, ff:fe / ff:fd / fe:fe "
             "byte patterns, IPv4-mapped addresses of every IPv4 class, same address with other flags); random static lists incl. one equal "
-            "to the chosen address; listing failure / unprepared. config driver: every sequence of length <= 3 / <= 4 over 15 server "
+            "to the chosen address; listing failure / unprepared; Prepare itself (implementation-only, real read-only rtnetlink dumps): every sequence of 2..3 Prepare "
+            "calls over {an interface index that does not exist, lo, a permanent interface with IPv6 addresses, one without} on ONE RDNSS / Prefix "
+            "value with Apply after every Prepare: the outcome must equal that of a fresh value prepared for that interface only (evaluated before "
+            "and after; skipped when the reference itself is unstable), must fail after a Prepare for the nonexistent index, and a chosen server / "
+            "advertised prefix must belong to an address package net lists for that interface. config driver: every sequence of length <= 3 / <= 4 over 15 server "
             "strings (:: in two spellings, one address in two spellings, IPv4, IPv4-mapped, garbage, a prefix, a zoned address), omitted list, random lists "
             "up to 12 servers; each accepted (parser-produced) plugin value is applied 2..4 times to an address list and every result must be the option "
             "of the plugin as parsed (the plugin driver applies each plugin twice). Non-trivial = at least two listed addresses / servers "
